@@ -413,6 +413,27 @@ def delete_correspondence(ctx: Ctx, built: bool) -> None:
                    else f"{len(cases)} deletions on real controller / system / zone stores agree with sdel")
 
 
+def delete_rule_shape() -> str:
+    """M_StoreDeferred's del_is: _delete_msg removes an entry only if it IS the message (not merely equal to it).  Read from the source (AST)."""
+    import ast  # noqa: PLC0415
+    import inspect  # noqa: PLC0415
+
+    import ramses_rf.entity_base as eb  # noqa: PLC0415
+
+    tree = ast.parse(inspect.getsource(eb))
+    fn = next((n for n in ast.walk(tree) if isinstance(n, ast.FunctionDef) and n.name == "_delete_msg"), None)
+    if fn is None:
+        return "_delete_msg not found"
+    dels = [n for n in ast.walk(fn) if isinstance(n, ast.Delete)]
+    if len(dels) < 2:
+        return "_delete_msg no longer deletes from both stores (_msgs_ and _msgz_)"
+    guards = [ast.unparse(n.test) for n in ast.walk(fn) if isinstance(n, ast.If) and any(isinstance(x, ast.Delete) for x in ast.walk(n))]
+    loose = [g for g in guards if " is msg" not in g]
+    if len(guards) < 2 or loose:
+        return f"_delete_msg deletes an entry without testing that it IS the message: guards {guards}"
+    return ""
+
+
 def deferred_correspondence(ctx: Ctx, built: bool, trials: int) -> None:
     """Event histories (a packet is stored / an attribute read finds the held message expired or live / the loop turns) on a REAL controller
     entity -- the store rule of _MessageDB._handle_msg, _msg_value_msg scheduling _delete_msg through the real call_soon -- against M_StoreDeferred."""
@@ -421,6 +442,8 @@ def deferred_correspondence(ctx: Ctx, built: bool, trials: int) -> None:
     from ramses_tx.message import Message  # noqa: PLC0415
     from ramses_tx.packet import Packet  # noqa: PLC0415
 
+    why = delete_rule_shape()
+    ctx.obligation("translator:delete-rule-is-identity", not why, "translator", why or "_delete_msg guards both deletions with `is msg`")
     rng = ctx.rng
     CODES = {"1F09": ["FF0532", "FF0533"], "2E04": ["00FFFFFFFFFFFF00", "01FFFFFFFFFFFF00"]}
     t0 = dt(2026, 2, 1, 12, 0, 0)
